@@ -80,12 +80,19 @@ Definition py_space (c: N) : bool :=
 Definition rstrip_ws (s: str) : str :=
   rev ((fix go (l: str) : str := match l with c :: r => if py_space c then go r else c :: r | [] => [] end) (rev s)).
 
-Fixpoint concat_wstrings (fuel: nat) (v: str) : M str :=    (* node.value.rstrip()[:-1] + tok2.value[2:] *)
+(* tok2.value from just after its first double quote (a wide / unicode string token always contains one) *)
+Fixpoint after_quote (s: str) : str :=
+  match s with
+  | [] => []
+  | c :: r => if N.eqb c 34 then r else after_quote r
+  end.
+
+Fixpoint concat_wstrings (fuel: nat) (v: str) : M str :=    (* node.value.rstrip()[:-1] + tok2.value[index of the quote + 1:] *)
   match fuel with
   | O => oof
   | S f =>
     k <- peek_kind ;;
-    if okind_in k tbl_WSTR_LITERAL then (t2 <- advance ;; concat_wstrings f (drop_last (rstrip_ws v) ++ skipn 2 (tv t2)))
+    if okind_in k tbl_WSTR_LITERAL then (t2 <- advance ;; concat_wstrings f (drop_last (rstrip_ws v) ++ after_quote (tv t2)))
     else ret v
   end.
 
